@@ -1434,6 +1434,6 @@ func init() {
 			"quick tier: dict values are not part of the state key (the table never inspects values); values are still compared on every explored transition; thorough includes them",
 			"configuration B relies on key symmetry (keys are only observed through Hash and ==): states are canonicalised by renaming keys to their order position",
 		},
-		BudgetQuick: 90, BudgetThorough: 1200,
+		BudgetQuick: 300, BudgetThorough: 1200,
 	})
 }
